@@ -227,6 +227,41 @@ def r6(ctx):
     c02.order_rule(ctx, P, "C03.R6", VAP, BS_PUT, True)
 
 
+def r8(ctx):
+    """where an upgrade proof lets the block / seek sub-proof stand in for one of its own nodes, the
+    sub-proof must climb from the requested block to exactly that node: block_and_seek_proof(..,
+    seek_root, root, ..) is called with `root` = the iterator position just tested to contain
+    `seek_root` (the two are both u64 tree indices; swapping them compiles and passes the suite,
+    because the only tested case has them equal)"""
+    rule = "C03.R8"
+    BSP = "tree::merkle_tree::MerkleTree::block_and_seek_proof"
+    n = 0
+    for nm in ("tree::merkle_tree::MerkleTree::upgrade_proof", "tree::merkle_tree::MerkleTree::additional_upgrade_proof"):
+        fa = ctx.fn(nm)
+        if not need(ctx, P, rule, nm, fa):
+            continue
+        cont = list(bool_switches(fa, lambda o: o[0] == "call" and o[2].endswith("flat_tree::Iterator::contains")))
+        for s in sites(fa, BSP):
+            n += 1
+            seek_root, root = fa.arg_origin(s, 3), fa.arg_origin(s, 4)
+            r_ = strip(root)
+            is_pos = r_[0] == "call" and r_[2].endswith("flat_tree::Iterator::index")
+            tested = [o for b_, o, tr, fl in cont if tr is not None and fa.dominates(tr, s) and len(o[3]) == 2 and term_sig(strip(o[3][1])) == term_sig(strip(seek_root))
+                      and (not is_pos or term_sig(strip(o[3][0])) == term_sig(strip(r_[3][0])))]
+            ctx.check(P, rule, "%s: the sub-proof climbs to the iterator position that contains its subtree @%s" % (nm.split("::")[-1], _ord3(fa, s, BSP)), is_pos and bool(tested),
+                      "block_and_seek_proof(.., seek_root = X, root = iter.index(), ..) under iter.contains(X)",
+                      "%s calls block_and_seek_proof with seek_root = %s and root = %s, but the position tested with contains() on the way is %s: the sibling path of the requested block does not end at the node it replaces in the upgrade, and the replica rejects the honest proof" % (
+                          nm.split("::")[-1], term_str(seek_root)[:50], term_str(root)[:50], [term_str(o)[:60] for _, o, tr, _ in cont if tr is not None and fa.dominates(tr, s)]),
+                      [site_desc(fa, s)], key="C03|C03.R8|%s|sub-proof root" % nm.split("::")[-1])
+    if n < 2 and ctx.crate.name == "hypercore":
+        ctx.missing(P, rule, "block_and_seek_proof call sites in the upgrade proofs", "found %d (floor 2)" % n)
+
+
+def _ord3(fa, n, callee):
+    same = [x for x in sites(fa, callee)]
+    return "%d/%d" % (same.index(n) + 1, len(same))
+
+
 def r7(ctx):
     """replica reopen, second half: the entries a replica logged (nodes and a bitfield update, with
     or without an upgrade) are all re-applied when the core is opened — the replay clauses of
@@ -236,9 +271,9 @@ def r7(ctx):
     c01.r2(ctx, P, "C03.R7")
 
 
-RULES = [r1, r2, r2b, r3, r4, r5, r6, r7]
+RULES = [r1, r2, r2b, r3, r4, r5, r6, r7, r8]
 EXPLANATION = ("C03 (honest proofs accepted, replicas converge): acceptance and convergence depend on flat-tree arithmetic that no structural rule captures; decided narrowly: create_proof reads the value for "
                "the proof's own block index, returns Ok(None) without building a proof when that block is not held, and passes request and proof parts through unchanged (R1); byte_offset_in_changeset sums "
-               "root lengths over the same root list in which it searched the position, and its panic-capable constructs are discharged (R2); sibling agreement: upgrade_proof / additional_upgrade_proof share branch conditions and flat-tree navigation except for the sub-proof inclusion, and verify_tree's two climbing loops are the same walk (R3); writer (block_and_seek_proof, seek_proof) and reader (verify_tree) climb sibling-then-parent once per level, the reader shifting iter.sibling() and recomputing at iter.parent() (R4); writer and reader connect an upgrade to the existing tree from the same place — the writer from the requester's last leaf (from - 2), the reader from the last root of the changeset (R5); an accepted proof is logged before it is committed in memory and flushed after the commit, so that it survives replica reopen (R6, the ordering clauses of C02.R2), and every logged entry — also one with tree nodes but no upgrade, as a block fetched at the current length produces — is re-applied on open (R7, the replay clauses of C01.R2).")
+               "root lengths over the same root list in which it searched the position, and its panic-capable constructs are discharged (R2); sibling agreement: upgrade_proof / additional_upgrade_proof share branch conditions and flat-tree navigation except for the sub-proof inclusion, and verify_tree's two climbing loops are the same walk (R3); writer (block_and_seek_proof, seek_proof) and reader (verify_tree) climb sibling-then-parent once per level, the reader shifting iter.sibling() and recomputing at iter.parent() (R4); writer and reader connect an upgrade to the existing tree from the same place — the writer from the requester's last leaf (from - 2), the reader from the last root of the changeset (R5); an accepted proof is logged before it is committed in memory and flushed after the commit, so that it survives replica reopen (R6, the ordering clauses of C02.R2), and every logged entry — also one with tree nodes but no upgrade, as a block fetched at the current length produces — is re-applied on open (R7, the replay clauses of C01.R2); where an upgrade proof embeds the block / seek sub-proof, block_and_seek_proof is called with root = the iterator position tested to contain its seek_root (R8).")
 NOT_DECIDED = ("that any honest proof verifies; agreement of node counts with missing_nodes; partial upgrades; convergence of lengths and bytes; request orders; replica reopen — the bulk of the property is not decided statically.")
 ASSUMPTIONS = ["flat_tree index arithmetic is correct"]
